@@ -1,5 +1,5 @@
 """C11 — top-level order is irrelevant; globals initialised before use (DESIGN §4 C11)."""
-from hir import nodes, fn_body, callee, last, line_of, pat_alternatives, pat_variant, pat_is_catchall, peel, norm_path, walk
+from hir import nodes, fn_body, callee, last, line_of, pat_alternatives, pat_variant, pat_is_catchall, peel, norm_path, walk, pat_bindings
 from engines import Visit, matches_on, arm_alternatives, ty_mentions
 from flow import Flow
 
@@ -172,6 +172,59 @@ def cycle(F, rep):
     a, b, c = idx(DEP + "initialization_order"), idx("sylt_compiler::typechecker::solve"), idx("sylt_compiler::intermediate::compile")
     rep.ob("CYCLE", "Compiler::compile|order", 0 <= a < b < c,
            "initialization_order -> typechecker::solve -> intermediate::compile in this order", comp["sp"])
+    cycle_nonempty(F, rep)
+
+
+def cycle_nonempty(F, rep, rule="CYCLE"):
+    """sylt's main() prints the errors it got and fails iff that list is not empty, so an `Err` that carries *no* error is
+    a success with nothing written.  The cycle report starts as `Err(Vec::new())` where the walk meets a node in state
+    Inserting; it is non-empty because every frame it passes through on the way out adds its own statement - unconditionally -
+    and compile() turns every member into an error."""
+    from flow import uncond_nodes
+    fn = F.fn(DEP + "order::recurse")
+    body = fn_body(fn)
+    rec = [c for c in nodes(body) if c.get("k") == "Call" and callee(c) == DEP + "order::recurse"]
+    good = bad = 0
+    for n, parents in __import__("hir").walk(body):
+        if n.get("k") == "MethodCall" and n["m"] == "map_err" and any(x is r for r in rec for x in nodes(n["recv"])):
+            cl = [a for a in n["args"] if a.get("k") == "Closure"]
+            ok = False
+            if cl:
+                prm = [b["hid"] for p_ in cl[0]["params"] for b in pat_bindings(p_)]
+                for x in uncond_nodes(cl[0]["body"]):
+                    if x.get("k") == "MethodCall" and x["m"] == "push" and peel(x["recv"]).get("hid") in prm:
+                        ok = True
+            good += ok
+            bad += not ok
+    # a recursive call whose Err is passed on untouched (`?` without map_err) adds nothing either
+    plain = [r for r in rec if not any(n.get("k") == "MethodCall" and n["m"] == "map_err" and any(x is r for x in nodes(n["recv"]))
+                                       for n in nodes(body))]
+    rep.ob(rule, "order::recurse|cycle-list-non-empty", good >= 1 and bad == 0 and not plain,
+           "every frame a detected cycle passes through adds its statement to the report unconditionally (%d site(s))" % good
+           if good >= 1 and bad == 0 and not plain else
+           "a cycle report can leave order() empty: the list starts as Err(Vec::new()) and a frame passes it on without "
+           "(unconditionally) adding its statement - compile() then returns Err with no errors, which main() treats as success: "
+           "`counter :: counter + 1` compiles to nothing with exit status 0", fn["sp"])
+    comp = F.fn("sylt_compiler::Compiler::compile")
+    ok = False
+    for m in nodes(fn_body(comp), "Match"):
+        if callee(peel(m["scrut"])) != DEP + "initialization_order":
+            continue
+        for arm, alt, vp in arm_alternatives(m):
+            if vp and vp.endswith("Result::Err"):
+                binds = [b["hid"] for b in pat_bindings(alt)]
+                for c in nodes(arm["body"], "MethodCall"):
+                    if c["m"] == "for_each" and any(x.get("hid") in binds for x in nodes(c["recv"], "Path")):
+                        cl = [a for a in c["args"] if a.get("k") == "Closure"]
+                        # (error_no_panic! pushes under `if !self.panic`, a flag it resets itself after every use)
+                        if cl and any(x.get("k") == "MethodCall" and x["m"] == "push" for x in nodes(cl[0]["body"])):
+                            ok = True
+                for lp in nodes(arm["body"], "ForLoop"):
+                    if any(x.get("hid") in binds for x in nodes(lp["iter"], "Path")) and \
+                            any(x.get("k") == "MethodCall" and x["m"] == "push" for x in nodes(lp["body"])):
+                        ok = True
+    rep.ob(rule, "Compiler::compile|one-error-per-cycle-member", ok,
+           "compile() records an error for every member of a reported cycle", comp["sp"])
 
 
 def _is_err(e):
